@@ -181,7 +181,7 @@ def main(tier):
     tasks = []
     git_secs = sections_for("git", K, producers.BODY_KINDS)
     small = sections_for("git", K, ["ctx", "minus", "nonl"])
-    du_secs = sections_for("diffu", ["modified"], producers.BODY_KINDS)
+    du_secs = sections_for("diffu", ["modified"], producers.BODY_KINDS + ["emptyctx"])
     for label, ov, k in configs:
         if tier == "quick":
             tasks.append((label, ov, "git", git_secs if k == 0 else small, 2))
@@ -197,6 +197,9 @@ def main(tier):
                               sections_for("git", K, ["minus"]), 3))
         if k <= 1:
             tasks.append((label, ov, "diffu", du_secs, 2 if tier == "quick" else 3))
+            # outputs of several `diff -u a b` runs one after the other (no `diff` lines); also of the same two files
+            tasks.append((label, ov, "diffu_bare", du_secs, 2 if tier == "quick" else 3))
+            tasks.append((label + "/same-file", ov, "diffu_bare", du_secs, 2))
             # the same file in consecutive sections (as in `git log -p` over several commits)
             tasks.append((label + "/same-file", ov, "git", small if tier == "quick" else git_secs, 2))
     cap = 45 if tier == "quick" else 900
